@@ -22,7 +22,25 @@ import (
 // Bubble runs f in a synctest bubble.  It returns a non-empty string when the
 // bubble deadlocked (every goroutine durably blocked with no timer pending),
 // together with the stacks of the library goroutines at that moment.
+// VaryProcs: when set (thorough tier), successive bubbles run with different
+// numbers of OS threads executing Go code (GOMAXPROCS 1, 2, 4, all): some
+// interleavings only occur with few processors, others only with many.
+var VaryProcs bool
+var bubbleCount atomic.Int64
+var ProcsUsed sync.Map // GOMAXPROCS value -> number of bubbles
+
 func Bubble(t *testing.T, f func()) (deadlock string) {
+	if VaryProcs {
+		all := runtime.NumCPU()
+		n := []int{all, 1, all, 2, all, 4}[bubbleCount.Add(1)%6]
+		if n > all {
+			n = all
+		}
+		prev := runtime.GOMAXPROCS(n)
+		defer runtime.GOMAXPROCS(prev)
+		c, _ := ProcsUsed.LoadOrStore(n, new(atomic.Int64))
+		c.(*atomic.Int64).Add(1)
+	}
 	defer func() {
 		if r := recover(); r != nil {
 			msg := fmt.Sprint(r)
